@@ -135,3 +135,238 @@ Section SkippedAreNodes.
     injection E as <-. unfold chan_init in S. rewrite Hdag in S. discriminate.
   Qed.
 End SkippedAreNodes.
+
+(* ================= Part 2: the loop never runs out of tasks =================
+   In every state the loop of runner.run reaches there is a task to submit or to collect: the exit "no tasks to
+   execute" is dead code for graphs whose dependencies (control and data) have a topological order.
+   Argument: in a state with nothing to submit and nothing running, every executed node is resolved (XR). Take a
+   channel that is neither handed out nor skipped, of minimal rank: all its predecessors are handed out (hence
+   executed, hence resolved) or skipped, so it is triggered, so (dag_runs_iff_triggered) it was executed or is
+   scheduled — it was handed out after all. So every channel is handed out or skipped, END included; but END is
+   never executed in a state the loop continues from, and END is never skipped (SN: reportBranch fails first). *)
+Section Progress.
+  Variable V : Type.
+  Variable St : Type.
+  Variable ops : vops V.
+  Variable g : graph.
+  Hypothesis Hdag : g_mode g = Dag.
+  Hypothesis Hnk : NoDup (map n_key (g_nodes g)).
+  Hypothesis Hcd : api_built g.
+  Hypothesis HendN : find_node g kEND = None.                         (* END is not a node *)
+  Variable rank : key -> nat.
+  Hypothesis Hrank : forall t q, gpred g t q -> (rank q < rank t)%nat.
+  Variable nout : node -> V -> tres V.
+  Hypothesis Hnz : forall n v, nout n v <> TErr [].                   (* a failing node reports an error *)
+  Variable x : V.
+  Variable exec : St -> path -> V -> res V * St.
+  Variable sub : nat -> path -> V -> St -> outcome V * St.
+  Variable sched : nat -> list key -> nat.
+  Variable p : path.
+  Hypothesis Hsub : forall i k v s, Forall (fun e : logentry V => fst e <> p) (outcome_log V (fst (sub i (p ++ [k]) v s))).
+  Hypothesis Hpure : forall n v s, fst (fst (run_task V St ops exec sub p n v s)) = nout n v.
+
+  Notation reach := (reach V St ops g exec sub sched p).
+  Notation step := (step V St ops exec sub sched p g).
+  Notation skipped := (skipped V).
+  Notation LX := (LX V St ops g nout x p).
+
+  Lemma LT_ksorted ls Rv : LT V St ops g p ls Rv -> ksorted (ls_chans V St ls).
+  Proof. intros (X & G & HL & _). destruct HL as (HI & _). exact (proj1 (inv_wf _ _ _ _ _ _ HI)). Qed.
+
+  Lemma reach_SN s0 ls Rv : reach x s0 ls Rv -> SN V g (ls_chans V St ls) [].
+  Proof.
+    induction 1 as [cs0 cs1 ready Hi Hc Hend|ls Rv ls' Hr IH Hstep].
+    - cbn [init_state ls_chans]. eapply calc_next_SN; [exact Hdag| |eapply init_chans_SN; eassumption|exact Hc].
+      destruct (init_chans_inv V g Hdag cs0 Hi) as [HI _]. exact (proj1 (inv_wf _ _ _ _ _ _ HI)).
+    - destruct (step_continue_unfold V St ops g Hdag exec sub sched p ls ls' Hstep)
+        as (results & sublog & s' & completed & running' & cs' & ready & Es & Ew & Ecn & Eend & Eso & ->).
+      cbn [ls_chans]. eapply calc_next_SN; [exact Hdag| |exact IH|exact Ecn].
+      eapply LT_ksorted. eapply (reach_LT V St ops g Hdag Hnk Hcd exec sub sched p Hsub); eassumption.
+  Qed.
+
+  Lemma reach_start_resolved s0 ls Rv : reach x s0 ls Rv -> In kSTART (akeys Rv).
+  Proof.
+    induction 1 as [cs0 cs1 ready Hi Hc Hend|ls Rv ls' Hr IH Hstep]; [now left|].
+    unfold akeys. rewrite map_app. apply in_app_iff. now left.
+  Qed.
+
+  Lemma reach_end_not_next s0 ls Rv : reach x s0 ls Rv -> ~ In kEND (akeys (ls_next V St ls)).
+  Proof.
+    induction 1 as [cs0 cs1 ready Hi Hc Hend|ls Rv ls' Hr IH Hstep].
+    - cbn [init_state ls_next]. now apply alookup_none.
+    - destruct (step_continue_unfold V St ops g Hdag exec sub sched p ls ls' Hstep)
+        as (results & sublog & s' & completed & running' & cs' & ready & Es & Ew & Ecn & Eend & Eso & ->).
+      cbn [ls_next]. now apply alookup_none.
+  Qed.
+
+  Lemma own_paths_step ls results sublog s' :
+    submit V St ops exec sub p g (ls_next V St ls) (ls_st V St ls) = (results, sublog, s') ->
+    own_paths V p (ls_log V St ls ++ next_entry V St p ls ++ sublog)
+    = own_paths V p (ls_log V St ls) ++ map (fun k => p ++ [k]) (akeys (ls_next V St ls)).
+  Proof.
+    intros Es. destruct (submit_spec V St ops g exec sub p _ Hsub _ _ _ _ _ Es) as [_ Hsl].
+    now rewrite !own_paths_app, (own_paths_foreign V p sublog Hsl), app_nil_r, own_paths_next.
+  Qed.
+
+  Lemma in_map_path (X : list key) k : In (p ++ [k]) (map (fun k => p ++ [k]) X) <-> In k X.
+  Proof.
+    rewrite in_map_iff. split.
+    - intros (k' & E & Hk'). apply app_inv_head in E. now injection E as <-.
+    - intros Hk. exists k. auto.
+  Qed.
+
+  Lemma reach_end_not_executed s0 ls Rv : reach x s0 ls Rv -> ~ In (p ++ [kEND]) (own_paths V p (ls_log V St ls)).
+  Proof.
+    induction 1 as [cs0 cs1 ready Hi Hc Hend|ls Rv ls' Hr IH Hstep].
+    - cbn [init_state ls_log]. rewrite own_paths_marker. intros [].
+    - destruct (step_continue_unfold V St ops g Hdag exec sub sched p ls ls' Hstep)
+        as (results & sublog & s' & completed & running' & cs' & ready & Es & Ew & Ecn & Eend & Eso & ->).
+      cbn [ls_log]. rewrite (own_paths_step ls results sublog s' Es). intros Hin. apply in_app_iff in Hin.
+      destruct Hin as [Hin|Hin]; [now apply IH|]. apply in_map_path in Hin.
+      exact (reach_end_not_next s0 ls Rv Hr Hin).
+  Qed.
+
+  Lemma reach_chan_keys s0 ls Rv : reach x s0 ls Rv -> akeys (ls_chans V St ls) = akeys (init_chans_v0 V g).
+  Proof.
+    induction 1 as [cs0 cs1 ready Hi Hc Hend|ls Rv ls' Hr IH Hstep].
+    - cbn [init_state ls_chans].
+      destruct (init_chans_inv V g Hdag cs0 Hi) as [HI0 Ho0].
+      assert (Hpre0 : forall k, In k (akeys [(kSTART, x)]) -> In k [kSTART] /\ npred g [kSTART] k).
+      { intros k [<-|[]]. split; [now left|]. intros t [<-|[]] Hne. congruence. }
+      assert (Hnd : NoDup [kSTART]) by (constructor; [intros []|constructor]).
+      destruct (calc_next_inv V ops g Hdag _ _ _ _ _ _ HI0 Ho0 Hnd Hpre0 Hc) as (_ & _ & _ & [K1 _]).
+      rewrite K1. unfold init_chans in Hi. rewrite Hdag in Hi.
+      assert (HtG : forall t c, In t (unreachable_nodes g) -> alookup t (init_chans_v0 V g) = Some c -> ~ In t [kSTART]).
+      { intros t c _ E [<-|[]]. rewrite (start_no_chan V g _ _ _ _ (init_v0_inv V g Hdag)) in E. discriminate. }
+      destruct (report_branch_inv V g Hdag _ [kSTART] [kSTART] kSTART _ cs0 (init_v0_inv V g Hdag) (or_introl eq_refl) HtG Hi)
+        as (_ & [K0 _] & _). exact K0.
+    - destruct (step_continue_unfold V St ops g Hdag exec sub sched p ls ls' Hstep)
+        as (results & sublog & s' & completed & running' & cs' & ready & Es & Ew & Ecn & Eend & Eso & ->).
+      cbn [ls_chans]. rewrite <- IH.
+      destruct (reach_LT V St ops g Hdag Hnk Hcd exec sub sched p Hsub x s0 ls Rv Hr) as (X & G & HL & _).
+      pose proof HL as (HI & Ho & Hnd & _).
+      destruct (step_completed_pre V St ops g exec sub sched p Hsub ls (akeys Rv) X G _ _ _ _ _ HL Es Ew) as (_ & Hpre).
+      assert (Hpre' : forall k, In k (akeys (task_outputs V completed)) -> In k G /\ npred g G k).
+      { intros k Hk. destruct (Hpre k Hk) as (A & B & _). auto. }
+      destruct (calc_next_inv V ops g Hdag _ _ _ _ _ _ HI Ho Hnd Hpre' Ecn) as (_ & _ & _ & [K _]). exact K.
+  Qed.
+
+  Lemma chan_exists s0 ls Rv k :
+    reach x s0 ls Rv -> In k (chan_keys g) -> exists c, alookup k (ls_chans V St ls) = Some c.
+  Proof.
+    intros Hr Hk. apply alookup_key_some. rewrite (reach_chan_keys s0 ls Rv Hr).
+    destruct (alookup k (init_chans_v0 V g)) as [c|] eqn:E; [eapply alookup_some_key; eassumption|].
+    rewrite (init_v0_lookup V g) in E. apply memb_in in Hk. rewrite Hk in E. discriminate.
+  Qed.
+
+  Lemma gpred_chan_key t q : gpred g t q -> q <> kSTART -> In q (chan_keys g).
+  Proof.
+    intros Hq Hne. unfold chan_keys. apply in_app_iff. left.
+    assert (Hex : exists n, In n (g_nodes g) /\ n_key n = q).
+    { destruct Hq as [Hq|Hq]; [unfold cpreds in Hq|unfold dpreds in Hq]; apply in_map_iff in Hq;
+        destruct Hq as (n & Hk & Hn); apply filter_In in Hn; destruct Hn as [Hn _]; eauto. }
+    destruct Hex as (n & Hn & <-). apply in_map. unfold real_nodes. apply filter_In. split; [assumption|].
+    apply negb_true_iff. now apply N.eqb_neq.
+  Qed.
+
+  (* a step that continues collected no failed task ... *)
+  Lemma step_continue_noerr ls ls' results sublog s' completed running' :
+    step ls = Continue ls' ->
+    submit V St ops exec sub p g (ls_next V St ls) (ls_st V St ls) = (results, sublog, s') ->
+    wait_tasks V sched g (ls_step V St ls) (ls_running V St ls ++ results) = (completed, running') ->
+    task_errors V completed = [].
+  Proof.
+    unfold Graph.step, step_limit_hit. rewrite Hdag. intros H Es Ew. rewrite Es, Ew in H.
+    destruct (task_errors V completed); [reflexivity|discriminate].
+  Qed.
+
+  (* ... so every collected task delivered an output *)
+  Lemma completed_ok ls Rv results sublog s' completed running' :
+    LX ls Rv ->
+    submit V St ops exec sub p g (ls_next V St ls) (ls_st V St ls) = (results, sublog, s') ->
+    wait_tasks V sched g (ls_step V St ls) (ls_running V St ls ++ results) = (completed, running') ->
+    task_errors V completed = [] ->
+    forall k r, In (k, r) completed -> exists v, r = TOk v.
+  Proof.
+    intros HLX Es Ew Hte k r Hin. destruct r as [v|es]; [eauto|exfalso].
+    destruct (LX_submitted V St ops g nout x exec sub p Hsub Hpure ls Rv results sublog s' HLX Es) as [_ HRE].
+    assert (Hin' : In (k, TErr es) (ls_running V St ls ++ results)).
+    { eapply Permutation_in; [exact (wait_tasks_perm V g sched _ _ _ _ Ew)|]. apply in_app_iff. now left. }
+    assert (Hes : es <> []).
+    { destruct (HRE k es Hin') as [(n & w & _ & _ & Ho)|(_ & ->)]; [|discriminate]. intros ->. exact (Hnz n w Ho). }
+    destruct es as [|e es]; [congruence|].
+    assert (He : In e (task_errors V completed)).
+    { unfold task_errors. apply in_flat_map. exists (k, TErr (e :: es)). split; [assumption|]. now left. }
+    rewrite Hte in He. destruct He.
+  Qed.
+
+  (* XR: every executed node is resolved or still running *)
+  Lemma reach_XR s0 ls Rv :
+    reach x s0 ls Rv ->
+    forall k, In (p ++ [k]) (own_paths V p (ls_log V St ls)) -> In k (akeys Rv) \/ In k (akeys (ls_running V St ls)).
+  Proof.
+    induction 1 as [cs0 cs1 ready Hi Hc Hend|ls Rv ls' Hr IH Hstep]; intros k Hk.
+    - cbn [init_state ls_log] in Hk. rewrite own_paths_marker in Hk. destruct Hk.
+    - pose proof Hstep as Hstep0.
+      destruct (step_continue_unfold V St ops g Hdag exec sub sched p ls ls' Hstep)
+        as (results & sublog & s' & completed & running' & cs' & ready & Es & Ew & Ecn & Eend & Eso & ->).
+      pose proof (step_continue_noerr ls _ results sublog s' completed running' Hstep0 Es Ew) as Hte.
+      pose proof (reach_LX V St ops g Hdag Hnk Hcd nout x exec sub sched p Hsub Hpure s0 ls Rv Hr) as HLX.
+      pose proof (completed_ok ls Rv results sublog s' completed running' HLX Es Ew Hte) as Hok.
+      pose proof (wait_tasks_perm V g sched _ _ _ _ Ew) as Hwp.
+      destruct (submit_spec V St ops g exec sub p _ Hsub _ _ _ _ _ Es) as [Hkeys _].
+      cbn [ls_log ls_running] in *. rewrite Eso. rewrite (own_paths_step ls results sublog s' Es) in Hk.
+      (* a task among running ++ results is collected (and resolved) or still running *)
+      assert (Hsplit : forall r, In (k, r) (ls_running V St ls ++ results) ->
+                 In k (akeys (Rv ++ task_outputs V completed)) \/ In k (akeys running')).
+      { intros r Hin. apply (Permutation_in _ (Permutation_sym Hwp)) in Hin. apply in_app_iff in Hin.
+        destruct Hin as [Hin|Hin].
+        - left. destruct (Hok k r Hin) as (v & ->). unfold akeys. rewrite map_app. apply in_app_iff. right.
+          apply in_akeys. exists v. now apply task_outputs_in.
+        - right. apply in_akeys. eauto. }
+      apply in_app_iff in Hk. destruct Hk as [Hk|Hk].
+      + destruct (IH k Hk) as [HR|HRu].
+        * left. unfold akeys. rewrite map_app. apply in_app_iff. now left.
+        * apply in_akeys in HRu. destruct HRu as (r & Hin). apply (Hsplit r). apply in_app_iff. now left.
+      + apply in_map_path in Hk. rewrite <- Hkeys in Hk. apply in_akeys in Hk. destruct Hk as (r & Hin).
+        apply (Hsplit r). apply in_app_iff. now right.
+  Qed.
+
+  (* THE LOOP NEVER RUNS OUT OF TASKS *)
+  Theorem reach_not_stalled s0 ls Rv :
+    reach x s0 ls Rv -> ls_next V St ls <> [] \/ ls_running V St ls <> [].
+  Proof.
+    intros Hr.
+    destruct (ls_next V St ls) as [|a l] eqn:En; [|left; discriminate].
+    destruct (ls_running V St ls) as [|b l'] eqn:Eru; [|right; discriminate]. exfalso.
+    pose proof (reach_LT V St ops g Hdag Hnk Hcd exec sub sched p Hsub x s0 ls Rv Hr) as HLT.
+    pose proof HLT as (X & G & HL & _).
+    pose proof HL as (HI & _ & _ & Hperm & _ & _ & _ & Hlog).
+    rewrite En, app_nil_r in Hperm.
+    pose proof (reach_XR s0 ls Rv Hr) as HXR. rewrite Eru in HXR.
+    (* handed out = START or executed = START or resolved *)
+    assert (HG : forall q, In q G -> In q (akeys Rv)).
+    { intros q Hq. apply (Permutation_in _ Hperm) in Hq. destruct Hq as [<-|Hq]; [eapply reach_start_resolved; eassumption|].
+      assert (Hex : In (p ++ [q]) (own_paths V p (ls_log V St ls))) by (rewrite Hlog; now apply in_map_path).
+      destruct (HXR q Hex) as [?|[]]. assumption. }
+    assert (Hall : forall n t c, (rank t < n)%nat -> alookup t (ls_chans V St ls) = Some c -> In t G \/ c_skipped V c = true).
+    { induction n as [|n IHn]; intros t c Hlt E; [lia|].
+      destruct (c_skipped V c) eqn:S; [now right|left].
+      assert (Htr : triggered V St g ls Rv t).
+      { exists c. split; [assumption|]. split; [assumption|]. intros q Hq.
+        destruct (N.eq_dec q kSTART) as [->|Hne]; [left; eapply reach_start_resolved; eassumption|].
+        destruct (chan_exists s0 ls Rv q Hr (gpred_chan_key t q Hq Hne)) as (cq & Eq).
+        assert (Hlt' : (rank q < n)%nat) by (specialize (Hrank t q Hq); lia).
+        destruct (IHn q cq Hlt' Eq) as [HqG|Sq]; [left; now apply HG|right; exists cq; auto]. }
+      destruct (proj2 (runs_iff_triggered_LT V St ops g p ls Rv t HLT) Htr) as [Hex|Hsc].
+      - unfold executed in Hex. rewrite Hlog in Hex. apply in_map_path in Hex.
+        apply (Permutation_in _ (Permutation_sym Hperm)). now right.
+      - unfold scheduled in Hsc. rewrite En in Hsc. destruct Hsc. }
+    assert (HendK : In kEND (chan_keys g)) by (unfold chan_keys; apply in_app_iff; right; now left).
+    destruct (chan_exists s0 ls Rv kEND Hr HendK) as (ce & Ee).
+    destruct (Hall (S (rank kEND)) kEND ce (Nat.lt_succ_diag_r _) Ee) as [HeG|Se].
+    - apply (Permutation_in _ Hperm) in HeG. destruct HeG as [HeG|HeG]; [discriminate|].
+      apply (reach_end_not_executed s0 ls Rv Hr). rewrite Hlog. now apply in_map_path.
+    - destruct (reach_SN s0 ls Rv Hr kEND) as [[]|Hf]; [exists ce; auto|]. exact (Hf HendN).
+  Qed.
+End Progress.
